@@ -411,6 +411,8 @@ type msgReader struct {
 	maskKey       uint32
 	// reading is true while Read is executing. Protected by readMu.
 	reading bool
+	// eof is set once the current message has been read to its end.
+	eof bool
 
 	// util.ReaderFunc(mr.Read) to avoid continuous allocations.
 	readFunc util.ReaderFunc
@@ -419,6 +421,7 @@ type msgReader struct {
 func (mr *msgReader) reset(ctx context.Context, h header) {
 	mr.ctx = ctx
 	mr.flate = h.rsv1
+	mr.eof = false
 	mr.limitReader.reset(mr.readFunc)
 
 	if mr.flate {
@@ -445,6 +448,12 @@ func (mr *msgReader) Read(p []byte) (n int, err error) {
 	mr.reading = true
 	defer func() { mr.reading = false }()
 
+	if mr.eof {
+		// The message has been read to its end and the flate reader went back to
+		// the pool then; it may belong to another connection by now.
+		return 0, io.EOF
+	}
+
 	n, err = mr.limitReader.Read(p)
 	if mr.flate && mr.flateContextTakeover() && mr.dict != nil {
 		p = p[:n]
@@ -460,6 +469,7 @@ func (mr *msgReader) Read(p []byte) (n int, err error) {
 	// consumed. An EOF before that comes from the transport and is an error.
 	if mr.fin && mr.payloadLength == 0 && (errors.Is(err, io.EOF) || errors.Is(err, io.ErrUnexpectedEOF) && mr.flate) {
 		mr.putFlateReader()
+		mr.eof = true
 		return n, io.EOF
 	}
 	if err != nil {
